@@ -40,6 +40,7 @@ func runGenEntry(c *Ctx, tag, entry string, args []int, variants []string, need 
 		c.Inconclusive("%v", err)
 		return
 	}
+	specs = g.Specs
 	var wg sync.WaitGroup
 	sem := make(chan struct{}, 4)
 	for _, s := range specs {
@@ -132,6 +133,7 @@ func c11TS(c *Ctx) {
 		c.Inconclusive("%v", err)
 		return
 	}
+	specs = g.Specs
 	for _, s := range specs {
 		src, err := os.ReadFile(g.TSPath(s.Name))
 		if err != nil {
